@@ -222,19 +222,41 @@ def name_class(rep, idx):
     fi = idx.find_func("MemoryMap.Name.__new__")
     site = fi.site
     rep.analysed(site)
-    raises = [n for n in ast.walk(fi.node) if isinstance(n, ast.Raise)]
-    exc = {ast.unparse(r.exc.func) if isinstance(r.exc, ast.Call) else "?" for r in raises}
-    rep.check(len(raises) >= 2 and exc == {"TypeError"}, "C18.2", site, "Name(...) refuses malformed names with TypeError",
-              f"{len(raises)} raise(s) of {sorted(exc)}")
-    tests = [ir.norm(ir.from_ast(n.test, {})) for n in ast.walk(fi.node) if isinstance(n, ast.If)]
-    want = [ir.norm(ir.parse("isinstance(part, str) and part")), ir.norm(ir.parse("isinstance(part, int) and part >= 0"))]
-    rep.check(all(w in tests for w in want), "C18.2", site, "parts are non-empty strings or non-negative integers",
-              f"tests: {[ir.show(t) for t in tests]}")
-    rets = [ir.norm(ir.from_ast(n.value, {})) for n in ast.walk(fi.node) if isinstance(n, ast.Return) and n.value is not None]
-    ok = len(rets) == 1 and rets[0][0] == 'call' and rets[0][1] == ir.parse("tuple.__new__") and len(rets[0][2]) == 2 and \
-        rets[0][2][1] == ('name', 'name')
-    rep.check(ok, "C18.2", site, "a Name is the tuple of its parts, unconverted (so '0' and 0 stay distinct)",
-              f"returns {[ir.show(r) for r in rets]}")
+    from .common import check_refusal
+    c = get_fn(idx, fi)
+    raises = {e_ for e_, g_, l_ in c.t.raises}
+    rep.check(len(c.t.raises) >= 2 and raises == {"TypeError"}, "C18.2", site, "Name(...) refuses malformed names with TypeError",
+              f"{len(c.t.raises)} raise(s) of {sorted(raises)}")
+    # the value the parts are taken from: the argument, with a single string wrapped into a 1-tuple
+    whole = c.norm(('phi', c.parse("isinstance(name, str)"), ('tuple', (('name', 'name'),)), ('name', 'name')))
+    loops = [L for L in c.t.loops.values() if c.norm(L.iter) == whole or (L.seq is not None and c.norm(L.seq) == whole)]
+    if len(loops) != 1:
+        rep.unk("C18.2", site, "parts are non-empty strings or non-negative integers", f"found {len(loops)} loops over the parts of the name")
+    else:
+        L = loops[0]
+        part = ('item', L.id, ()) if L.kind == 'gen' else c.norm(('sub', L.seq, ('idx', L.id))) if L.seq is not None else ('item', L.id, ())
+        cands = [part, ('item', L.id, ()), c.norm(('sub', whole, ('idx', L.id)))]
+        done = False
+        for p_ in cands:
+            from .common import refuses
+            ok, detail = refuses(c, "not ((isinstance(part, str) and part) or (isinstance(part, int) and part >= 0))", "TypeError", {"part": p_})
+            if ok:
+                rep.ok("C18.2", site, "parts are non-empty strings or non-negative integers", detail)
+                done = True
+                break
+        if not done:
+            check_refusal(rep, "C18.2", c, "parts are non-empty strings or non-negative integers",
+                          "not ((isinstance(part, str) and part) or (isinstance(part, int) and part >= 0))", "TypeError", {"part": part})
+    check_refusal(rep, "C18.2", c, "a name is a non-empty tuple", "not isinstance(N, tuple) or len(N) == 0", "TypeError", {"N": whole})
+    rets = [c.norm(v) for v, g_, l_ in c.t.returns]
+    ok = len(rets) == 1 and rets[0][0] == 'call' and rets[0][1] == c.parse("tuple.__new__") and len(rets[0][2]) == 2 and \
+        rets[0][2][1] == whole
+    wrong = None
+    if len(rets) == 1 and rets[0][0] == 'call' and len(rets[0][2]) == 2 and rets[0][2][1] != whole and \
+            any(x[0] == 'call' and x[1] in (('name', 'str'), ('name', 'int'), ('name', 'repr')) for x in ir.walk(rets[0][2][1])):
+        wrong = "the parts are converted on the way in: '0' and 0 (or 1 and '1') become the same name"
+    rep.form(ok, "C18.2", site, "a Name is the tuple of its parts, unconverted (so '0' and 0 stay distinct)",
+             f"returns {[ir.show(r)[:100] for r in rets]}", wrong=wrong)
 
 
 def own_walk(fn_node):
